@@ -175,7 +175,7 @@ def gen_expr_call(rng, env, use, others, cls, depth):
         if a < 0.4:
             args.append(("name", rng.choice(names(env) or ["x"])))
         elif a < 0.6:
-            args.append(("lit", rng.choice(["1", '"s t"', "true"])))
+            args.append(("lit", rng.choice(["1", '"s t"', "true", '"😀 ü"'])))
         elif a < 0.8 and depth < 2:
             args.append(gen_expr_call(rng, env, use, others, cls, depth + 1))
         else:
@@ -256,7 +256,7 @@ def render_project(rng, units, layout=None):
     layout = layout or rng.choice(["maven", "flat"])
     files, built = {}, []
     for u in units:
-        text, facts = javagen.render_unit(u, rng, wild=rng.choice([0.0, 0.0, 0.0, 0.04]), comments=["note", "run();", "new Foo()"])
+        text, facts = javagen.render_unit(u, rng, wild=rng.choice([0.0, 0.0, 0.04, 0.1]), comments=["note", "run();", "new Foo()"])
         path = ("src/main/java/%s/%s.java" % (u["pkg"].replace(".", "/"), u["name"])) if layout == "maven" else ("%s_%s.java" % (u["pkg"].replace(".", "_"), u["name"]))
         built.append({"path": path, "text": text, "events": facts["events"], "facts": facts, "unit": u})
     built.sort(key=lambda b: b["path"].split("/"))
@@ -278,6 +278,10 @@ def project_case(rng):
         extra[".gitignore"] = "generated/\n*Gen.java\n/legacy/old\n# a comment\n\n"
         extra["generated/x/Made.java"] = "package x; public class Made { void m() { run(); } }\n"
         extra["src/main/java/x/StubGen.java"] = "package x; public class StubGen { void g() { } }\n"
+        # an ignored FILE that sorts before its siblings, in the directories of the real units (the walk must go on after it)
+        for pth in list(files):
+            if pth.endswith(".java"):
+                extra[(pth.rsplit("/", 1)[0] + "/" if "/" in pth else "") + "AaaGen.java"] = "package gen; public class AaaGen { void g() { } }\n"
         extra["legacy/old/Old.java"] = "package old; public class Old { int f() { return 1; } }\n"
         extra["src/testData/x/Sample.java"] = "package x; public class Sample { }\n"
     files.update(extra)
